@@ -27,9 +27,10 @@ def entries(tier):
                 es.append(Entry("c16_var_step", "real", "int", dict(W=W, precision=prec, pin=-1), ub_checks=True))
     # the largest advertised window: 64-bit accumulators must not overflow for |value|/precision <= 1e8
     for prec in ([1.0] if tier == "quick" else [1.0, 1e-6]):
-      for pin in (0, 63):
+      for pin in ((63,) if tier == "quick" else (0, 63)):
         es.append(Entry("c16_var_step", "real", "int", dict(W=64, precision=prec, pin=pin), ub_checks=True,
                         budget=dict(paths=4000, time=600, concretize=200), kinds=("ub", "abort", "mem"),
+                        cap=(3 if tier == "quick" else 60), strict_first=False,
                         note="W = 64: only the overflow (UB) obligations are discharged at this size"))
     for prec in PRECS:
         es.append(Entry("c16_var_multiplier", "real", "int", dict(precision=prec)))
